@@ -33,6 +33,8 @@ pub trait Subject: 'static {
     /// `TypeId` of the real ε-copy type equals that of the model's documented substitution.
     fn deser_type_is_documented() -> bool;
     fn ser_type_is_self() -> bool;
+    /// Layouts of types that cannot be named outside the block they are defined in (twin subjects).
+    fn extra_layouts(_l: &mut vmodel::format::Layouts, _units: &mut std::collections::BTreeMap<String, usize>) {}
 }
 
 pub struct EpsOut {
